@@ -14,7 +14,7 @@ ID = "C17"
 FLAVOUR = "san"
 LEVEL = "exploration"
 RULE = (
-    "seeded generator.  Annotation strata: AtomArray / AtomArrayStack of 0-40 (occasionally up to 200) atoms whose "
+    "seeded generator.  Annotation strata: AtomArray / AtomArrayStack of 0-40 (occasionally up to 200, thorough: up to 1500) atoms whose "
     "chain_id / res_id / ins_code / res_name are walked from a 3-4 letter vocabulary (a step changes a random subset of "
     "the four fields, possibly to the same value) plus forced modes: single-atom residues, one residue, name change "
     "only, insertion code only, same res_id in neighbouring chains, decreasing ids, empty array; every public "
